@@ -14,7 +14,7 @@ one(){
   git -C /repo worktree add -q --detach $w HEAD 2>/dev/null || { echo "$id worktree failed"; return; }
   ok=0
   for pf in $d/patch.diff $(ls $d/patch-on-*.diff 2>/dev/null); do   # re-created patches for changes whose code was touched by a later fix
-    if (cd $w && git checkout -q -- . && (git apply $pf 2>/dev/null || git apply --3way $pf >/dev/null 2>&1)); then ok=1; break; fi
+    if (cd $w && git reset -q --hard && (git apply $pf 2>/dev/null || (git apply --3way $pf >/dev/null 2>&1 && [ -z "$(git diff --name-only --diff-filter=U)" ]))); then ok=1; break; fi
   done
   if [ $ok = 0 ]; then
     if [ -f $d/SUPERSEDED ]; then echo "$id superseded: $(head -1 $d/SUPERSEDED)"; else echo "$id PATCH-DOES-NOT-APPLY"; fi
